@@ -650,6 +650,8 @@ mod inner {
 
         fn next(&mut self) -> Option<Self::Item> {
             loop {
+                #[cfg(bpaf_verif)]
+                crate::verif::tick();
                 let cur = self.cur;
                 if cur > self.args.scope.end {
                     return None;
